@@ -35,6 +35,9 @@ def last_token(text: str, at: int) -> str:
 
 def describe(rec: Dict[str, Any]) -> Dict[str, Any]:
     out = {"query": core.dec_text(rec["q"]), "out": rec.get("out"), "cls": rec.get("cls")}
+    if "events" in rec:
+        out["events"] = rec["events"][:40]
+        out["raised"] = rec.get("raised")
     if "doc" in rec:
         out["doc"] = core.dec_value(rec["doc"])
         out["doc_json"] = json.dumps(out["doc"], ensure_ascii=True)
